@@ -209,6 +209,20 @@ def showR : RPc → String
 def showState (s : St) : String :=
   s!"H={s.H} T={s.T} woken={showNatList s.woken}"
 
+/-! ### A waker that panics inside the wake pass
+
+`Shared::wake_blocked_futures` takes the waiting wakers `ws` out of the list and wakes the first
+`a` of them in order. If waking number `i < a` panics, the guard (`Unwoken`, src/io_uring/mod.rs)
+counts it as woken and puts everything after it back on the list while unwinding. -/
+
+/-- The pass over `ws` that is to wake `a` of them and panics at index `i`: the wakers woken
+(without the panicking one) and the list afterwards. -/
+def unwindPass (ws : List Nat) (a i : Nat) : List Nat × List Nat :=
+  if i < min a ws.length then (ws.take i, ws.drop (i + 1)) else (ws.take (min a ws.length), ws.drop (min a ws.length))
+
+def showIds (l : List Nat) : String :=
+  if l.isEmpty then "-" else ",".intercalate (l.map toString)
+
 def stepLine (s : St) (toks : List String) : St × List String :=
   match toks with
   | "blk" :: "begin" :: _ :: rest =>
@@ -240,6 +254,17 @@ def stepLine (s : St) (toks : List String) : St × List String :=
   | ["blk", "polli"] =>
     match s.r with
     | .idle => let s' := startPoll s; (s', [s!"r {showR s'.r} {showState s'}"])
+    | _ => (s, ["bad-op"])
+  -- A wake pass in which the first of three waiters' wakers panics (a ring of its own, queue of
+  -- two filled and submitted by the poll): the pass was to wake two — the panicking one counts as
+  -- woken, the other and the one without a slot go back on the list (`unwindPass`) — and the next
+  -- poll, with two slots free, wakes both.
+  | ["blk", "pwaker"] =>
+    match s.r with
+    | .idle =>
+      let u := unwindPass [700, 701, 702] 2 0
+      let woken2 := u.2.take 2
+      (s, [s!"pwaker first=panic woken={showIds u.1} second=ok woken={showIds woken2}"])
     | _ => (s, ["bad-op"])
   | ["blk", "pollinf"] =>
     match s.r with
